@@ -441,7 +441,9 @@ type Pair struct {
 	Score          int
 }
 
-func (p Pair) String() string { return fmt.Sprintf("r[%d,%d)/q[%d,%d)=%d", p.AS, p.AE, p.BS, p.BE, p.Score) }
+func (p Pair) String() string {
+	return fmt.Sprintf("r[%d,%d)/q[%d,%d)=%d", p.AS, p.AE, p.BS, p.BE, p.Score)
+}
 
 // Scorer is implemented by the pairs the aligners return.
 type scorer interface{ Score() int }
